@@ -369,9 +369,21 @@ class EarleyParser(Parser):
             yield (name, [])
 
         for path in paths:
-            ptrees = [self.extract_trees(self.forest(*p)) for p in path]
-            for p in itertools.product(*ptrees):
-                yield (name, p)
+            yield from ((name, p) for p in self.extract_children(path, 0))
+
+    def extract_children(self, path, idx):
+        # Lazy Cartesian product (same order as itertools.product) of the trees of
+        # the children of `path`. itertools.product materializes all trees of every
+        # child before yielding the first combination, such that obtaining a single
+        # tree for an ambiguous grammar took time and memory proportional to the
+        # number of all its parse trees.
+        if idx == len(path):
+            yield ()
+            return
+
+        for tree in self.extract_trees(self.forest(*path[idx])):
+            for rest in self.extract_children(path, idx + 1):
+                yield (tree,) + rest
 
     def predict(self, col, sym, state):
         for alt in self.cgrammar[sym]:
